@@ -65,6 +65,9 @@ func pinnedName(fn *ssa.Function, v ssa.Value, free bool) string {
 // reviewed tree, in order of declaration; CurrentLocals holds the same list for the tree being
 // analysed (filled by the loader from the syntax tree). When both lists have the same length a
 // local is rendered by the pinned name at its position, so renaming a local does not change terms.
+// PinnedFuncs lists the canonical names of the repository's functions on the reviewed tree.
+var PinnedFuncs = map[string]bool{}
+
 var (
 	PinnedLocals  = map[string][]string{}
 	CurrentLocals = map[string][]string{}
@@ -103,6 +106,9 @@ func FuncName(f *ssa.Function) string {
 }
 
 // Term renders an SSA value as a normalised, alias-free expression string.
+// paramBinding maps parameters of a callee to the argument values of the call being expanded.
+var paramBinding = map[*ssa.Parameter]ssa.Value{}
+
 func Term(v ssa.Value) string { return term(v, 0, map[ssa.Value]bool{}) }
 
 func isNarrowing(from, to types.Type) bool {
@@ -163,6 +169,12 @@ func term(v ssa.Value, depth int, onstack map[ssa.Value]bool) string {
 		}
 		return x.Value.ExactString()
 	case *ssa.Parameter:
+		if b, ok := paramBinding[x]; ok && !onstack[x] {
+			// rendering a callee's fact in the caller's vocabulary (predicate expansion)
+			onstack[x] = true
+			defer delete(onstack, x)
+			return term(b, depth+1, onstack)
+		}
 		return pinnedName(x.Parent(), x, false)
 	case *ssa.FreeVar:
 		return pinnedName(x.Parent(), x, true)
